@@ -283,6 +283,18 @@ def run(ctx):
       done[name + "@full"] = explore.bfs(
           ctx, sp, d2, label=name + "@full",
           prefix=universe.full_prefix(sp.version))[0]
+  if not ctx.slice:
+    # ... and from a state in which a placeholder SEGMENT survives only
+    # because a group lists the identifier (the edge that made it a segment
+    # placeholder is gone again)
+    T_ = "\t".join
+    pre = [("add", T_(["U", "1", "x 2"])),
+           ("add", T_(["E", "y", "s+", "2-", "0", "1", "0", "1", "*"])),
+           ("rm", "y")]
+    sp = explore.SPECS["c09.g2"]
+    done["c09.g2@group-placeholder"] = explore.bfs(
+        ctx, sp, 2 if ctx.quick else 3, label="c09.g2@group-placeholder",
+        prefix=pre)[0]
   ctx.traces = ctx.transitions
   ctx.bound_completed = done
 
